@@ -40,8 +40,10 @@ def run_demo_once(wt, mdir, meta):
     cmd = cmd.replace("<repo>", wt).replace("$REPO", wt).replace("${REPO}", wt)
     if not cmd:
         return None, "no demo command"
-    if "cp " in cmd:
-        cwd = mdir          # the command copies the demonstration itself (relative to the mutation directory)
+    if re.search(r"\bcp\s+(\./)?[\w.\-]+_test\.go\s", cmd) or re.search(r"\bcp\s+(\./)?[\w.\-]+\.go\s", cmd):
+        cwd = mdir          # the command copies the demonstration itself, relative to the mutation directory
+    elif "cp " in cmd:
+        cwd = wt            # absolute source, destination relative to the repository root
     else:
         cwd = wt
         for f in os.listdir(mdir):
@@ -71,6 +73,7 @@ def main():
     ap.add_argument("--inplace", action="store_true")
     ap.add_argument("--tier", default="quick")
     ap.add_argument("--skip-confirm", action="store_true")
+    ap.add_argument("--save-extra", action="store_true", help="also write the result to <mdir>/extra-<props>.json (cross-property evaluation)")
     a = ap.parse_args()
     mdir = os.path.abspath(a.mdir)
     meta = json.load(open(os.path.join(mdir, "meta.json")))
@@ -134,6 +137,8 @@ def main():
     finally:
         sh("git -C /repo worktree remove --force %s" % wt)
         shutil.rmtree(wt, ignore_errors=True)
+    if a.save_extra:
+        json.dump(res, open(os.path.join(mdir, "extra-%s.json" % "-".join(props)), "w"), indent=1)
     print(json.dumps(res, indent=1))
     sys.exit(0 if res.get("confirmed") and res.get("caught") else 1)
 
